@@ -12,8 +12,38 @@ namespace etl {
 /// R1 is less than the ratio R2, provides the member constant value equal true.
 /// Otherwise, value is false.
 /// \ingroup ratio
+namespace detail {
+// n1/d1 < n2/d2 for n >= 0, d > 0 by comparing the continued fraction expansions:
+// no product is formed, so nothing can overflow
+[[nodiscard]] constexpr auto ratio_less_non_negative(intmax_t n1, intmax_t d1, intmax_t n2, intmax_t d2) -> bool
+{
+    while (true) {
+        auto const q1 = n1 / d1;
+        auto const q2 = n2 / d2;
+        if (q1 != q2) { return q1 < q2; }
+        auto const r1 = n1 % d1;
+        auto const r2 = n2 % d2;
+        if (r2 == 0) { return false; }
+        if (r1 == 0) { return true; }
+        // r1/d1 < r2/d2  <=>  d2/r2 < d1/r1
+        n1 = d2;
+        n2 = d1;
+        d1 = r2;
+        d2 = r1;
+    }
+}
+
+[[nodiscard]] constexpr auto ratio_less(intmax_t n1, intmax_t d1, intmax_t n2, intmax_t d2) -> bool
+{
+    if (n1 < 0 and n2 >= 0) { return true; }
+    if (n1 >= 0 and n2 < 0) { return false; }
+    if (n1 < 0) { return ratio_less_non_negative(-n2, d2, -n1, d1); }
+    return ratio_less_non_negative(n1, d1, n2, d2);
+}
+} // namespace detail
+
 template <typename R1, typename R2>
-struct ratio_less : bool_constant<(R1::num * R2::den < R2::num * R1::den)> { };
+struct ratio_less : bool_constant<detail::ratio_less(R1::num, R1::den, R2::num, R2::den)> { };
 
 /// \ingroup ratio
 template <typename R1, typename R2>
